@@ -63,6 +63,7 @@ type Scenario struct {
 	ShutAfter   int            `json:"shut_after,omitempty"` // udp: Shutdown is called after this many steps, while peers are still sending (0 = after they are done)
 	Transient   []int          `json:"transient,omitempty"`  // these accept / datagram-read attempts fail with a temporary, non-timeout error
 	UDPSock     bool           `json:"udp_sock,omitempty"`   // udp: the server runs on a UDP socket (SessionUDP branch) where the build has that seam
+	PostYield   bool           `json:"post_yield,omitempty"` // the return of every transport operation is a scheduling point of its own
 	Msgs        []InMsg        `json:"msgs,omitempty"`
 	Initial     map[string]int `json:"initial,omitempty"` // mux: patterns registered before the tasks start
 	Ops         []MuxOp        `json:"ops,omitempty"`
@@ -133,6 +134,8 @@ func Gen(seed uint64, tier string) any {
 	sc.Yield = core.Chance(r, 40)
 	sc.Peers = 1 + r.IntN(3)
 	sc.UDPSock = sc.Transport == "udp" && core.Chance(r, 50)
+	sc.PostYield = core.Chance(r, 35)
+
 	if sc.Transport == "udp" && core.Chance(r, 25) {
 		sc.ShutAfter = 5 + r.IntN(60)
 		sc.Dup = 0
@@ -544,6 +547,7 @@ func runAdmission(sc *Scenario, res *core.Result, verbose bool) {
 	kernel.SetCurrent(k)
 	defer kernel.SetCurrent(nil)
 	n := simnet.New(k)
+	n.PostYield = sc.PostYield
 	n.Stream = simnet.StreamLink{MinDelay: time.Millisecond, Jitter: 2 * time.Millisecond, SegMode: sc.SegMode, ShortRead: sc.ShortRead}
 	n.Dgram = simnet.DgramLink{MinDelay: time.Millisecond, Jitter: 3 * time.Millisecond, Dup: sc.Dup}
 	a := &adm{sc: sc, k: k, n: n, res: res, byID: map[uint16][]byte{}, handled: map[uint16]int{}, peerFin: make([]bool, sc.Peers)}
